@@ -1,14 +1,24 @@
 //! One module per family of properties.
 
 pub mod common;
+pub mod frontend;
 pub mod lalr;
+pub mod misc;
 
 use crate::engine::{Ctx, Failure};
 
 pub fn run(ctx: &Ctx) -> i32 {
     match ctx.prop.as_str() {
         "C04" => lalr::c04_run(ctx),
+        "C08" => frontend::c08_run(ctx),
+        "C09" => frontend::c09_run(ctx),
+        "C10" => frontend::c10_run(ctx),
+        "C16" => frontend::c16_run(ctx),
         "C11" => lalr::c11_run(ctx),
+        "C12" => misc::c12_run(ctx),
+        "C13" => misc::c13_run(ctx),
+        "C15" => misc::c15_run(ctx),
+        "C18" => misc::c18_run(ctx),
         "C17" => lalr::c17_run(ctx),
         other => {
             eprintln!("unknown property {other}");
@@ -20,7 +30,15 @@ pub fn run(ctx: &Ctx) -> i32 {
 fn replay_fn(prop: &str) -> Option<fn(&serde_json::Value) -> Result<(), Failure>> {
     Some(match prop {
         "C04" => lalr::c04_replay,
+        "C08" => frontend::c08_replay,
+        "C09" => frontend::c09_replay,
+        "C10" => frontend::c10_replay,
+        "C16" => frontend::c16_replay,
         "C11" => lalr::c11_replay,
+        "C12" => misc::c12_replay,
+        "C13" => misc::c13_replay,
+        "C15" => misc::c15_replay,
+        "C18" => misc::c18_replay,
         "C17" => lalr::c17_replay,
         _ => return None,
     })
